@@ -385,6 +385,26 @@ def run_glue(ctx, res, data):
         if not c['ok']:
             res.violations.append(dict(signature='C18/api:' + c['name'], what='API glue: ' + c['name'] + ' - not as documented (' + c['info'] + ')', case=c))
 
+def race_round(ctx, res, seed):
+    """TESTING, not proof: the scenario family once more under the Go race detector (the hook runtime and the harness collaborators
+    synchronise through their own mutexes, so a report points into components/requestreply, cqrs, the Router or GoChannel)."""
+    import os, subprocess
+    try:
+        binary = C.build_harness(race=True)
+    except C.CheckError as e:
+        res.extra['race_detector'] = 'race build not available: %s' % str(e)[-200:]
+        return
+    out = os.path.join(C.workdir(ctx['pid']), 'c18_race.json')
+    p = subprocess.run([binary, 'c18', '-seed', str(seed + 17), '-n', '30', '-reqs', '8', '-out', out], env=dict(C.GOENV, GORACE='halt_on_error=0 exitcode=0'),
+                       stdout=subprocess.PIPE, stderr=subprocess.STDOUT, text=True, timeout=1500)
+    reports = p.stdout.count('WARNING: DATA RACE')
+    res.extra['race_detector'] = dict(label='testing', scenarios=30, data_race_reports=reports, exit_code=p.returncode)
+    res.evaluations += 1
+    if reports:
+        i = p.stdout.index('WARNING: DATA RACE')
+        res.violations.append(dict(signature='C18/data-race', what='the Go race detector reports a data race while the request-reply scenarios run (testing tier)',
+                                   case=dict(report=p.stdout[i:i + 3000])))
+
 def run(ctx):
     tier, seed = ctx['tier'], ctx['seed']
     res = C.Result()
@@ -394,6 +414,8 @@ def run(ctx):
         run_once(ctx, res, s, n, reqs, tag)
         if res.violations:
             break
+    if tier == 'thorough' and not res.violations:
+        race_round(ctx, res, seed)
     res.extra['anchor_hashes'] = C.anchor_hashes(ANCHORS)
     res.rule = ('seeded scenarios on a real Router + GoChannel + cqrs CommandBus/CommandProcessor + requestreply.PubSubBackend: 1..6 (second round: up to 16; thorough: 32) concurrent requesters on ONE reply topic, '
                 'scripted handlers (result / error, Nack-redelivery => several replies, injected foreign / id-less / malformed / extra own notifications), AckCommandErrors on/off, reply-publish failures with and without '
